@@ -29,7 +29,7 @@ def _strip(e):
             e = e[1][1]
         elif e[0] == "call" and e[1].endswith("Try::branch") and len(e[2]) == 1:
             e = e[2][0]
-        elif e[0] == "call" and re.search(r"convert::(From|Into)<", e[1]) and len(e[2]) == 1:
+        elif e[0] == "call" and re.search(r"convert::(From|Into)(<|::)|convert::(TryFrom|TryInto)(<|::)", e[1]) and len(e[2]) == 1:
             e = e[2][0]
         else:
             return e
